@@ -1,5 +1,5 @@
 (* Expand/Format.v — model of expand.Format / formatInto (expand/expand.go) and of the
-   printf and echo builtins (interp/builtin.go), after the fix: commits e99402a a410fc4 f64b374 5da2c8e.
+   printf and echo builtins (interp/builtin.go), after the fix: commits e99402a a410fc4 f64b374 5da2c8e 36fa1d4 1821ea4 9524abf.
    Part 1: the pieces of Go's strconv / fmt / utf8 that formatInto delegates to.
    Part 2: formatInto, byte by byte; Format; the builtins (reuse loop, echo options).
    Part 3: Spec — bash's printf / echo -e, written per directive, PARTIAL: [None] outside the
@@ -279,6 +279,7 @@ Section Loop.
                   if c2 =? 120 then emit [n mod 256] (loop fuel pb r3 fmts args)
                   else emit (encode_rune n) (loop fuel pb r3 fmts args)
                 else emit [BSL; c2] (loop fuel pb rest2 fmts args)
+              else if c2 =? PCT then emit [BSL] (loop fuel pb rest fmts args)   (* i--: the % is read again *)
               else emit [BSL; c2] (loop fuel pb rest2 fmts args)
           end
         else if nonempty fmts then
@@ -301,8 +302,12 @@ Section Loop.
             | None => GoPanic
             | Some (arg, args') =>
                 if c =? 98 then
-                  match brec arg with
-                  | Done o _ => emit o (loop fuel pb rest [] args')
+                  match brec arg with                                   (* into a separate buffer ... *)
+                  | Done e _ =>
+                      match go_fprintf (tl fmts) 115 (VStr e) with     (* ... then farg = it, c = 's' *)
+                      | None => Unmodelled
+                      | Some o => emit o (loop fuel pb rest [] args')
+                      end
                   | e => e
                   end
                 else
@@ -371,11 +376,26 @@ Definition printf_builtin (argv : list str) : bres :=
 Definition s_n : str := [45; 110].   (* -n *)
 Definition s_e : str := [45; 101].   (* -e *)
 Definition s_E : str := [45; 69].    (* -E *)
+(* an option word: len >= 2, '-' first, strings.Trim(opts[1:], "neE") == "" *)
+Definition is_neE (c : N) : bool := (c =? 110) || (c =? 101) || (c =? 69).
+Definition echo_optword (a : str) : bool :=
+  match a with
+  | d :: c :: t => (d =? 45) && forallb is_neE (c :: t)
+  | _ => false
+  end.
+(* for _, opt := range opts[1:] { switch opt { 'n': newline = false; 'e': doExpand = true; 'E': doExpand = false } } *)
+Fixpoint echo_optchars (cs : str) (newline doexp : bool) : bool * bool :=
+  match cs with
+  | [] => (newline, doexp)
+  | c :: t => if c =? 110 then echo_optchars t false doexp
+              else if c =? 101 then echo_optchars t newline true
+              else if c =? 69 then echo_optchars t newline false
+              else echo_optchars t newline doexp
+  end.
 Fixpoint echo_opts (args : list str) (newline doexp : bool) : list str * bool * bool :=
   match args with
-  | a :: t => if str_eqb a s_n then echo_opts t false doexp
-              else if str_eqb a s_e then echo_opts t newline true
-              else if str_eqb a s_E then echo_opts t newline false
+  | a :: t => if echo_optword a
+              then let '(nl, ex) := echo_optchars (tl a) newline doexp in echo_opts t nl ex
               else (args, newline, doexp)
   | [] => ([], newline, doexp)
   end.
@@ -447,8 +467,7 @@ Definition spec_escape (m : escmode) (s : str) : option (str * str) :=
         end
       else if c =? 99 then
         match m with MFormat => Some ([BSL; c], t) | _ => None end      (* class b_backslash_c *)
-      else if c =? PCT then
-        match m with MFormat => None | _ => Some ([BSL; c], t) end      (* class backslash_percent *)
+      else if c =? PCT then Some ([BSL], s)      (* the backslash is literal; the % is read again (a directive in a format) *)
       else Some ([BSL; c], t)
   end.
 
@@ -572,8 +591,13 @@ Definition spec_conv (d : dirv) (arg : str) : option str :=
       if zero && (0 <? d_width d) then None                             (* class zero_flag_on_string *)
       else Some (spec_pad (d_minus d) (d_width d) [match arg with [] => 0 | b :: _ => b end])
   | CvB =>
-      if 0 <? d_width d then None                                        (* class b_width_ignored *)
-      else spec_b MPercentB arg
+      match spec_b MPercentB arg with
+      | None => None
+      | Some e =>
+          if zero && (0 <? d_width d) then None                          (* class zero_flag_on_string *)
+          else if (0 <? d_width d) && negb (is_ascii e) then None        (* class width_counts_runes *)
+          else Some (spec_pad (d_minus d) (d_width d) e)
+      end
   | CvD =>
       match spec_int arg with
       | None => None
@@ -638,19 +662,20 @@ Definition spec_printf (fmt : str) (args : list str) : option (str * N) :=
           end
       end.
 
-(* echo [-n] [-e] [-E] args: each option word exactly -n, -e or -E (class echo_combined_options otherwise) *)
-Definition looks_like_opts (a : str) : bool :=
+(* echo [-neE]... args: a word is an option word iff it is a dash followed by one or more of n e E;
+   -n anywhere suppresses the newline, the last of e / E decides about escapes *)
+Definition spec_optword (a : str) : bool :=
   match a with
   | d :: c :: t => (d =? 45) && forallb (fun c => (c =? 110) || (c =? 101) || (c =? 69)) (c :: t)
   | _ => false
   end.
+Definition spec_last_eE (cs : str) (ex : bool) : bool :=
+  fold_left (fun ex c => if c =? 101 then true else if c =? 69 then false else ex) cs ex.
 Fixpoint spec_echo_opts (args : list str) (nl ex : bool) : option (list str * bool * bool) :=
   match args with
   | a :: t =>
-      if str_eqb a s_n then spec_echo_opts t false ex
-      else if str_eqb a s_e then spec_echo_opts t nl true
-      else if str_eqb a s_E then spec_echo_opts t nl false
-      else if looks_like_opts a then None
+      if spec_optword a
+      then spec_echo_opts t (nl && negb (existsb (fun c => c =? 110) (tl a))) (spec_last_eE (tl a) ex)
       else Some (args, nl, ex)
   | [] => Some ([], nl, ex)
   end.
